@@ -183,6 +183,25 @@ def install(R):
     for mname in ("predict_proba", "transform", "decision_function"):
         R.methods[("estimator", mname)] = rowwise2(mname)
 
+    def m_fit_transform(E, recv, args, kwargs, node):
+        """scikit-learn's TransformerMixin.fit_transform: fit(X, y, ...) then transform(X)"""
+        m_fit(E, recv, args, kwargs, node)
+        X = args[0] if args else kwargs["X"]
+        return R.methods[("estimator", "transform")](E, recv, [X], {}, node)
+    R.methods[("estimator", "fit_transform")] = m_fit_transform
+
+    @reg("sklearn.metrics.mean_squared_error")
+    def _mse(E, y_true, y_pred, **kw):
+        """ASSUMED: a non-negative number; ValueError when the shapes differ"""
+        if isinstance(y_true, NdArr) and isinstance(y_pred, NdArr):
+            from .npmodel import shapes_equal
+            if y_true.ndim != y_pred.ndim:
+                E.raise_("ValueError", None, "registry")
+            shapes_equal(E, y_true.shape, y_pred.shape, None, "mse-shape")
+        r = E.real("mse")
+        E.assume(r >= 0)
+        return r
+
     Val = z3.DeclareSort("Val")
     R.Val = Val
 
